@@ -86,7 +86,12 @@ static void sp_setup(void) {
 #endif
   sp_n = IN(0, SP_N);
   sp_buf = (u8 *)exact_alloc(sp_n);
-  /* bytes stay unconstrained: combinators over symbolic sub-rules never read them (IN() count must not depend on symbolic values) */
+#if defined(SP_BYTES) && SP_BYTES
+  /* rules that consume raw bytes themselves (until<R> = until<R, any>): symbolic bytes without the eol character, so that
+   * column = 1 + byte stays the recount (byte-level line counting is C06's subject) */
+  for (u64 i = 0; i < SP_N; ++i) { u8 v = IN_BYTE(); ASSUME(v != '\n'); if (i < sp_n) sp_buf[i] = v; }
+#endif
+  /* otherwise bytes stay unconstrained: combinators over symbolic sub-rules never read them */
   sp_start = IN(0, sp_n);
   for (int k = 0; k < SP_K; ++k)
     for (u64 p = 0; p <= SP_N; ++p) {
